@@ -149,7 +149,7 @@ class LatticeApp(object):
 
     def __init__(self, g, srs='EPSG:3857', meta_size=(2, 2), meta_buffer=0, source_coverage=None, services=None,
                  extra_conf=None, scale=1, featureinfo=False, wms_srs=None, grid_conf=None, upstream_version=None,
-                 tile_source=False, under=None):
+                 tile_source=False, under=None, source_coverage_union=None):
         """tile_source: the upstream is a tile service on the same grid (URL template z/x/y) instead of a WMS;
         under = dict(tw, th, ul): the cache of the layer is filled from ANOTHER cache `cu` (same extent and resolutions,
         tiles of tw x th pixels, the other origin) which is filled from the upstream"""
@@ -172,6 +172,9 @@ class LatticeApp(object):
             src = {'type': 'tile', 'url': 'http://upstream.invalid/t/%(z)s/%(x)s/%(y)s.png', 'grid': 'g'}
         if source_coverage:
             src['coverage'] = {'bbox': [v * scale for v in source_coverage], 'srs': srs}
+        if source_coverage_union:
+            # a coverage that is not a rectangle: the union of rectangles
+            src['coverage'] = {'union': [{'bbox': [v * scale for v in r], 'srs': srs} for r in source_coverage_union]}
         conf = {
             'services': services or {'tms': {}, 'wmts': {'restful': True, 'kvp': True}, 'kml': {}, 'wms': {'srs': wms_srs or [srs], 'md': {'title': 't'}}},
             'layers': [{'name': 'lay', 'title': 'lay', 'sources': ['c']}],
